@@ -119,7 +119,11 @@ def enc_pieces(pieces):
             if k not in ids:
                 ids[k] = len(ids) + 1
                 objs[ids[k]] = p
-            out.append(f"o{ids[k]}:" + ".".join(str(ord(c)) for c in str(p)))
+            try:
+                text = str(p)
+            except Exception:  # noqa  (a lone StrictUndefined is never printed by native_concat)
+                text = "<unprintable>"
+            out.append(f"o{ids[k]}:" + ".".join(str(ord(c)) for c in text))
     return out, objs
 
 
@@ -134,6 +138,10 @@ def interpret(res, objs):
         return ("obj", objs[int(rest)])
     text = "".join(chr(int(x)) for x in rest.split(".")) if rest else ""
     return ("val", py_eval_or_text(text))
+
+
+def valid_entry_py(is_async, entry):
+    return entry == "R" or bool(is_async)
 
 
 def agrees(expected, got):
@@ -253,9 +261,12 @@ def run(ctx):
         "sandboxed": {a: mk(SandboxedNativeEnvironment, a) for a in (False, True)},
         "unoptimized": {a: mk(NativeEnvironment, a, optimized=False) for a in (False, True)},
         "overlay": {a: mk(NativeEnvironment, a).overlay(trim_blocks=False) for a in (False, True)},
+        # a missing variable is a StrictUndefined object: alone it is returned as it is (any use of it raises);
+        # next to other output its str() raises during the render
+        "strict": {a: mk(NativeEnvironment, a, undefined=jinja2.StrictUndefined) for a in (False, True)},
     }
     envs = axis_envs["plain"]
-    AXES = ["plain", "plain", "autoescape", "sandboxed", "unoptimized", "overlay", "constructor"]
+    AXES = ["plain", "plain", "autoescape", "sandboxed", "unoptimized", "overlay", "constructor", "strict"]
 
     cases = []   # (label, source, vars, predicted pieces or None)
     for _ in range(ctx.size(1500, 20000)):
@@ -302,6 +313,9 @@ def run(ctx):
                 async def collect(t=ta, v=vars_):
                     return [n async for n in t.root_render_func(t.new_context(dict(v)))]
                 apieces = asyncio.run(collect())
+                if len(pieces) > 1:
+                    for p_ in pieces:          # joining calls str() on every node: a node that cannot be printed
+                        str(p_)                # (StrictUndefined) makes the render raise, not return
             except Exception as e:  # noqa
                 ctx.count("render_raises")
                 continue
@@ -339,6 +353,11 @@ def run(ctx):
         ctx.case(sample=dict(case, result=show(got)) if nontriv and len(ctx.samples) < 6 else None,
                  key=(src, case["vars"], is_async, entry) if nontriv else None)
         ctx.count(f"{label}_{'async' if is_async else 'sync'}_{case['entry']}")
+        if not ps and valid_entry_py(is_async, entry) and got == ("ok", None):
+            # no output node at all: statement and docstring read literally promise the (empty) text, the code
+            # returns None (declared return type).  Re-observed on every run as a known finding.
+            ctx.reject(dict(case, note="no output nodes"), "a template without output returns None, the text otherwise would be ''",
+                       "native: a template without output returns None instead of the empty text")
         if not agrees(es, got):
             kind = got[1] if got[0] == "exc" else "wrong value"
             ctx.model_mismatch("K native_render", case, show(em), show(got),
